@@ -484,6 +484,13 @@ func (p *proxyConn) writeResponse(res *http.Response) error {
 		res.Close = true
 	}
 
+	// A body of unknown length on a connection that stays open needs a framing of its own.
+	// The transport hands over a response without Content-Length and without transfer coding
+	// after it inflated a gzip body it had asked for itself.
+	if !res.Close && shouldChunk(res) && len(res.TransferEncoding) == 0 {
+		res.TransferEncoding = []string{"chunked"}
+	}
+
 	if res.Close {
 		res.Header.Add("Connection", "close")
 	}
